@@ -446,6 +446,12 @@ def run(ctx):
     import c10
     r6 = c10.rule_R10_6(ctx)
     r6.rule = "R16.6"
+    # only the acceptance part concerns C16 (which kinds a shortcut lets
+    # through); address observation is C10's / C19's business
+    kept = [v for v in r6.violations if "identity-shortcut" in v.key]
+    dropped = len(r6.violations) - len(kept)
+    r6.violations = kept
+    r6.obligations -= dropped
     for v in r6.violations:
         v.rule = "R16.6"
         v.key = v.key.replace("R10.6", "R16.6", 1)
